@@ -14,6 +14,7 @@ pub mod c14;
 pub mod c15;
 pub mod c16;
 pub mod c17;
+pub mod c18;
 
 pub fn run(id: &str, rep: &mut Report) -> bool {
     match id {
@@ -30,6 +31,7 @@ pub fn run(id: &str, rep: &mut Report) -> bool {
         "C15" => c15::run(rep),
         "C16" => c16::run(rep),
         "C17" => c17::run(rep),
+        "C18" => c18::run(rep),
         _ => return false,
     }
     true
@@ -51,6 +53,7 @@ pub fn replay(id: &str, v: &Value) -> i32 {
         "C15" => c15::replay(w),
         "C16" => c16::replay(w),
         "C17" => c17::replay(w),
+        "C18" => c18::replay(w),
         _ => {
             eprintln!("unknown property id {}", id);
             return 2;
